@@ -445,3 +445,17 @@ func (w *World) meIn(ep *Epoch) int {
 	}
 	return ep.Me
 }
+
+// liveEpoch: index of the epoch whose group the node's vault holds right now (-1: no handler).
+func (w *World) liveEpoch() int {
+	if w.H == nil {
+		return -1
+	}
+	g := w.H.VerifLiveGroup()
+	for i, e := range w.Epochs {
+		if e.Group == g {
+			return i
+		}
+	}
+	return -1
+}
